@@ -144,16 +144,34 @@ def r08_2(run):
         if cf is None:
             raise AnchorVanished(name + '._create_flags')
         p = cf.params[1]
-        loops = [n for n in walk_unit(cf) if isinstance(n, ast.For)]
-        ok = False
-        for lp in loops:
-            k = lp.target.id if isinstance(lp.target, ast.Name) else None
-            keys = []
-            for st in ast.walk(lp):
-                if isinstance(st, ast.Assign) and isinstance(st.targets[0], ast.Subscript):
-                    keys.append(src(st.targets[0].slice))
-            if k and k in keys and ('%s.lower()' % k) in keys and (dotted(lp.iter) == p or src(lp.iter) in ('%s.keys()' % p, '%s.items()' % p)):
-                ok = True
+        # names bound to a key of the keyword dict (loop / comprehension over kw, kw.keys(), kw.items()) and the key expressions
+        # under which something is stored (subscript stores; dict-comprehension keys, a name ranging over a literal tuple expanded)
+        keyvars, keys = set(), set()
+        for n in walk_unit(cf):
+            if isinstance(n, (ast.For, ast.comprehension)):
+                it = n.iter
+                if dotted(it) == p or src(it) in ('%s.keys()' % p, '%s.items()' % p, 'list(%s)' % p, 'list(%s.keys())' % p, 'list(%s.items())' % p, 'sorted(%s)' % p):
+                    t = n.target
+                    if isinstance(t, ast.Name):
+                        keyvars.add(t.id)
+                    elif isinstance(t, (ast.Tuple, ast.List)) and t.elts and isinstance(t.elts[0], ast.Name) and src(it).endswith('.items()') or \
+                            (isinstance(t, (ast.Tuple, ast.List)) and t.elts and isinstance(t.elts[0], ast.Name) and 'items()' in src(it)):
+                        keyvars.add(t.elts[0].id)
+            if isinstance(n, ast.Assign) and isinstance(n.targets[0], ast.Subscript):
+                keys.add(src(n.targets[0].slice))
+            if isinstance(n, ast.DictComp):
+                kexpr = n.key
+                expanded = False
+                if isinstance(kexpr, ast.Name):
+                    for g_ in n.generators:
+                        if isinstance(g_.target, ast.Name) and g_.target.id == kexpr.id and isinstance(g_.iter, (ast.Tuple, ast.List)):
+                            keys.update(src(e) for e in g_.iter.elts)
+                            expanded = True
+                if not expanded:
+                    keys.add(src(kexpr))
+        ok = any(k in keys and ('%s.lower()' % k) in keys for k in keyvars)
+        if not keyvars and not keys:
+            raise Undecided('%s._create_flags: neither a loop over the flags nor a store by key was recognised' % name)
         run.ob('R08.2', cf, cf.node, '%s._create_flags stores every flag under its own and its lower-case name' % name, ok, slot='flags:%s' % name,
                message='%s._create_flags no longer stores both k and k.lower()' % name)
         up = run.idx.find_method(ci, 'update')
